@@ -2,7 +2,7 @@
 
 JSON forms
   expr : ['c', 'p/q'] | ['v', name] | ['+', a, b] | ['-', a, b] | ['*', a, b]
-         | ['q', 'p/q', form] | ['/', a, ['c', n]]        (decimal stream only, see c01_gen3)
+         | ['q', 'p/q', form] | ['/', a, ['c', n]] | ['dv', a, name, 'p/q']        (decimal stream only, see c01_gen3)
   atom : {'k':'const','d':expr,'amps':[[ch,expr],..]} | {'k':'table','chs':[[ch,[[t,v,interp],..]],..]}
        | {'k':'point','entries':[[t,[v,..],interp],..],'chs':[ch,..]} | {'k':'multi','subs':[atom,..]}
        | {'k':'aarith','l':atom,'op':'+'|'-','r':atom} | {'k':'func','d':expr,'ch':ch,'a':expr,'b':expr}   (a + b*t)
@@ -32,6 +32,9 @@ def ev(e, env):
         return F(e[1])
     if k == 'v':
         return env.get(e[1])
+    if k == 'dv':                # e / name; name is a top-level parameter with the exact value e[3] (c01_gen3, near-integer counts)
+        a = ev(e[1], env)
+        return None if a is None else a / F(e[3])
     a, b = ev(e[1], env), ev(e[2], env)
     if a is None or b is None:
         return None
@@ -44,6 +47,9 @@ def expr_vars(e, acc=None):
     acc = set() if acc is None else acc
     if e[0] == 'v':
         acc.add(e[1])
+    elif e[0] == 'dv':
+        expr_vars(e[1], acc)
+        acc.add(e[2])
     elif e[0] not in ('c', 'q'):
         expr_vars(e[1], acc)
         expr_vars(e[2], acc)
